@@ -96,3 +96,31 @@ pub fn spec_reveal(t: u16, value: &[u8], secret: &[u8], rv: &[u8; 4]) -> Result<
     }
     Ok((plain, 2, 2 + plen))
 }
+
+/// The §4.3 cipher applied to an already padded plaintext (a multiple of 16
+/// octets): for fixed keys a bijection between plaintexts and hidden values.
+pub fn spec_encrypt(t: u16, plain: &[u8], secret: &[u8], rv: &[u8; 4]) -> Vec<u8> {
+    let blocks = plain.len() / CHUNK;
+    let mut key_in: Vec<u8> = Vec::new();
+    key_in.extend_from_slice(&t.to_be_bytes());
+    key_in.extend_from_slice(secret);
+    key_in.extend_from_slice(rv);
+    let mut key = if blocks > 0 { hash16(&key_in) } else { [0u8; 16] };
+    let mut out: Vec<u8> = Vec::new();
+    let mut k = 0;
+    while k < blocks {
+        let mut j = 0;
+        while j < CHUNK {
+            out.push(plain[k * CHUNK + j] ^ key[j]);
+            j += 1;
+        }
+        if k + 1 < blocks {
+            let mut next_in: Vec<u8> = Vec::new();
+            next_in.extend_from_slice(secret);
+            next_in.extend_from_slice(&out[k * CHUNK..(k + 1) * CHUNK]);
+            key = hash16(&next_in);
+        }
+        k += 1;
+    }
+    out
+}
